@@ -213,6 +213,11 @@ func c18LookupFault(ownLive bool, k int) vx.Scenario {
 
 func c18FaultScenarios(th bool) []vx.Scenario {
 	var out []vx.Scenario
+	cpb := 2
+	if th {
+		cpb = 3
+	}
+	out = append(out, c18Concurrent(cpb))
 	n := 6
 	if th {
 		n = 10
@@ -223,4 +228,59 @@ func c18FaultScenarios(th bool) []vx.Scenario {
 		}
 	}
 	return out
+}
+
+// c18Concurrent: a lookup is under way while the administrator registers a more specific backend and its
+// agent polls; a second lookup that starts after that has completed must see the new backend: the answer
+// depends on the registered backends, the user and the path, not on what else is in flight.
+func c18Concurrent(pb int) vx.Scenario {
+	return vx.Scenario{Name: "c18/concurrent/lookup-while-registering", PB: pb, MaxSteps: 400000, MaxTime: 30 * time.Minute,
+		Setup: func(s *vs.Sched) func(*vs.Result) vx.Exec {
+			var l1, l2 string
+			var e2 error
+			stage := 0
+			var sync int
+			var st types.Store
+			ctx := context.Background()
+			s.Thread("setup", func() {
+				vae.Reset()
+				st = cache.NewCachingStore(store.NewPersistentStore())
+				st.AddBackend(ctx, &types.Backend{BackendID: "b-root", BackendUser: a1, EndUser: u1, PathPrefixes: []string{"/"}})
+				st.ListPendingRequests(ctx, "b-root")
+				vs.Touch(unsafe.Pointer(&sync))
+				stage = 1
+			})
+			s.Thread("lookup1", func() {
+				vs.Wait("set-up", unsafe.Pointer(&sync), func() bool { return stage >= 1 })
+				l1, _ = st.LookupBackend(ctx, u1, "/app/page")
+			})
+			s.Thread("admin", func() {
+				vs.Wait("set-up", unsafe.Pointer(&sync), func() bool { return stage >= 1 })
+				st.AddBackend(ctx, &types.Backend{BackendID: "b-app", BackendUser: a2, EndUser: u1, PathPrefixes: []string{"/app"}})
+				st.ListPendingRequests(ctx, "b-app")
+				vs.Touch(unsafe.Pointer(&sync))
+				stage = 2
+			})
+			s.Thread("lookup2", func() {
+				vs.Wait("the new backend is registered and live", unsafe.Pointer(&sync), func() bool { return stage >= 2 })
+				l2, e2 = st.LookupBackend(ctx, u1, "/app/page")
+			})
+			return func(r *vs.Result) vx.Exec {
+				var x vx.Exec
+				base(r, &x)
+				if len(r.Blocked) > 0 && len(r.Panics) == 0 {
+					x.Violations = append(x.Violations, "HANG: "+blockedList(r))
+				}
+				x.Obs = fmt.Sprintf("first lookup %q, second lookup %q", l1, l2)
+				// during the registration the new backend may already be the most specific match and not yet
+				// live: 404 ("") is a correct answer for the first lookup then
+				if l1 != "b-root" && l1 != "b-app" && l1 != "" {
+					x.Violations = append(x.Violations, fmt.Sprintf("MISROUTED: the lookup under way during the registration answered %q", l1))
+				}
+				if e2 != nil || l2 != "b-app" {
+					x.Violations = append(x.Violations, fmt.Sprintf("STALE-ROUTE: a lookup for /app/page that started after the backend for /app was registered and had polled answered %q (err %v), not b-app", l2, e2))
+				}
+				return x
+			}
+		}}
 }
